@@ -411,9 +411,13 @@ def check_special(case):
 @st.composite
 def reject_case(draw):
     c = draw(expr_case())
+    c["tree"] = ["A"]  # not used here
+    if draw(st.integers(0, 2)) == 0:
+        # nanometre scale (the library's home turf): every cell size is far below numpy's default atol of 1e-8
+        c["g"] = draw(gen.geom(nmin=2, nmax=4, exps=(-9, -9), maxcells=120, int_corners=False))
     c["bad"] = draw(st.sampled_from(["shifted-mesh", "other-n", "other-n-broadcastable", "other-n-broadcastable", "nvdim",
                                      "type-str", "type-none", "type-dict"]))
-    c["op"] = draw(st.sampled_from(["add", "sub", "mul", "div", "dot", "cross", "lshift"]))
+    c["op"] = draw(st.sampled_from(["add", "add", "sub", "mul", "mul", "div", "dot", "cross", "lshift"]))
     c["k2"] = draw(st.integers(2, 4))
     c["axis"] = draw(st.integers(0, len(c["g"]["n"]) - 1))
     c["shift"] = draw(st.sampled_from([0.25, 0.5, 1.0, 3.0]))
